@@ -43,6 +43,8 @@ fn empty_members(ctx: &Ctx, rt: &tokio::runtime::Runtime, dir: &std::path::Path,
 		let z = *rng.pick(&[2u8, 3, 5]); let m = (1u32 << z) - 1;
 		let (x0, y0) = (1 + rng.below(2) as u32, 1 + rng.below(2) as u32);
 		for x in x0..=(x0 + 1).min(m) { for y in y0..=(y0 + 1).min(m) { tiles.insert((z, x, y), rng.bytes(20)); } }
+		// a column whose row names have one, two and three digits (readers that list or sort names see 10 < 100 < 11 < 8 < 9)
+		if i % 2 == 0 { for row in [8u32, 9, 10, 11, 100] { tiles.insert((7, 3, row), rng.bytes(10)); } }
 		// zero-length members: beyond the box (east / south), inside it, and alone on another level
 		let outside = (z, (x0 + 2 + rng.below(2) as u32).min(m), (y0 + 2).min(m));
 		for c in [outside, (z, x0, y0 + 1), (z - 1, 0, 0), (z, 0, 0)] { if rng.chance(3, 4) || c == outside { tiles.insert(c, vec![]); } }
@@ -65,7 +67,7 @@ fn empty_members(ctx: &Ctx, rt: &tokio::runtime::Runtime, dir: &std::path::Path,
 				}
 			}
 			// stream over the whole level = lookups
-			for lz in [z, z - 1] {
+			for lz in [z, z - 1, 7] {
 				let full = TileBBox::new_full(lz)?; let f2 = full.clone();
 				let Ok(items) = guarded(|| rt.block_on(async { reader.get_bbox_tile_stream(f2).await.collect().await })) else { viol.push(V { kind: "stream".into(), input: desc.clone(), detail: format!("stream over level {lz} panicked") }); continue; };
 				let mut got: Vec<(u32, u32, u64)> = items.iter().map(|(c, b)| (c.x, c.y, b.len())).collect(); got.sort();
